@@ -20,6 +20,7 @@ var registry = map[string]func(*chk.Run){
 	"C09": checks.C09,
 	"C14": checks.C14,
 	"C15": checks.C15,
+	"C17": checks.C17,
 	"C06": checks.C06,
 }
 
